@@ -458,6 +458,12 @@ func (m *nodeMonitor) final() {
 	}
 	if !strings.Contains(st, "tmstate.(*StateMachine).kernel(") {
 		why := "unknown-cause"
+		if n.lastErr != "" {
+			why = n.lastErr
+			if len(why) > 60 {
+				why = why[:60]
+			}
+		}
 		for i := len(n.trace) - 1; i >= 0 && i > len(n.trace)-12; i-- {
 			if n.trace[i].kind == "astore" && strings.Contains(n.trace[i].x, "double action") {
 				why = "double-action-error-from-action-store"
